@@ -62,6 +62,9 @@ def run(ctx):
                             "create/delete topics, findCoordinator, joinGroup v1/v2, heartbeat, leaveGroup, syncGroup, listGroups, offsetCommit, offsetFetch, "
                             "saslHandshake v0/v1, saslAuthenticate) x {no error, each error field with sampled codes incl. -1/32767/-32768/36, several fields at once} "
                             "x random shapes (array lengths, null strings, record sets v1/v2) x a following operation drawn from all operations (quick: 6 codes per field, 3 repetitions; thorough: all 21 codes, 10 repetitions). "
+                            "Further families: framing-error frames (trailing bytes / missing tail), damaged frames (one byte overwritten anywhere or an array count changed; 12 per op-version quick, 80 thorough; fetch: header bytes only), "
+                            "partial reads of fetch responses (every j of n records, Close at once, Conn.ReadMessage, Conn.Read; plain and gzip/snappy/lz4/zstd; 1-2 batches; v1 sets), responses at the high watermark that carry a set, "
+                            "three-operation chains after a response under a foreign correlation id (incl. stray id = next id). "
                             "distinct_nontrivial = distinct cases in which a broker error code was reported by A or B")
     concrete = [d for d in dis if d.get("kind") == "disagreement" and not d["holds_on_impl"]]
     others = [d for d in dis if d not in concrete]
